@@ -76,7 +76,7 @@ def setup_worker(tier=None):
   names.wrap_method(LMNN, '_loss_grad', lg_factory)
 
 
-INITS = ['auto', 'pca', 'identity', 'random', '@randn', 'lda']
+INITS = ['auto', 'pca', 'identity', 'random', '@randn', 'lda', '@aniso']
 
 
 def cases(tier, seed):
@@ -119,7 +119,8 @@ def cases(tier, seed):
       out.append({'est': name, 'params': p, 'zero': zero,
                   'duplicates': bool(i % 4 == 1),
                   'ds': {'seed': int(r.randint(2**31 - 1)), 'd': d,
-                         'classes': classes, 'variant': 'plain',
+                         'classes': classes,
+                         'variant': 'separated' if i % 4 == 2 else 'plain',
                          'nmax': 36 if q else 48},
                   'seed': int(r.randint(1000))})
   return out
